@@ -10,6 +10,7 @@ import Ladim.Model.Release
 import Ladim.Driver.RunOp
 import Ladim.Model.Validate
 import Ladim.Model.Config
+import Ladim.Model.Params
 /-
 Line-protocol driver: one JSON request per input line, one JSON response per output line.
 It only *runs* the executable model definitions of `Ladim.Model.*`; it contains no logic of
@@ -510,11 +511,26 @@ def opConfigure (j : Json) : R Json := do
   | .ok c => pure (Json.mkObj [("ok", cfgToJson c)])
   | .error e => pure (Json.mkObj [("error", .str e)])
 
+def opParams (j : Json) : R Json := do
+  let tree := jsonToCfg (← fld j "config")
+  let globs ← getObjPairs (← fld j "glob")
+  let table ← globs.mapM (fun (k, v) => do pure (k, ← getList (fun x => x.getStr?) v))
+  let glob (pat : String) : List String := (table.lookup pat).getD []
+  match Params.ofFile glob tree with
+  | .error e => pure (errJ e)
+  | .ok p => pure (Json.mkObj [
+      ("dt", intJ p.dt), ("rev", .bool p.rev), ("has_ref", .bool p.hasRef), ("advection", .str p.advection),
+      ("diffusion", .bool p.diffusion), ("vertdiff", .bool p.vertDiff), ("vertadv", .bool p.vertAdv),
+      ("out_period", intJ p.outPeriod), ("out_period_step", intJ p.outPeriodStep), ("multifile", .bool p.multifile),
+      ("numrec", intJ p.numrec), ("layout", .str p.layout), ("skip_initial", .bool p.skipInitial),
+      ("continuous", .bool p.continuous), ("rel_freq", optJ intJ p.relFreq),
+      ("extra_forcing", listJ (fun s => Json.str s) p.extraForcing), ("subgrid", optJ (listJ intJ) p.subgrid)])
+
 def handlers : List (String × (Json → R Json)) :=
   [("tk", opTk), ("period", opPeriod), ("state", opState), ("outrun", opOutRun), ("genname", opGenName),
    ("forcing", opForcing), ("z2s", opZ2s), ("sdepth", opSdepth), ("sstretch", opSstretch),
    ("sample", opSample), ("grid", opGrid), ("sample2d", opSample2D), ("bilininv", opBilinInv),
-   ("tracker", opTracker), ("roms_sample", opRomsSample), ("diffdisp", opDiffDisp), ("analytical", opAnalytical), ("release", opRelease), ("run", opRun), ("validate", opValidate), ("configure", opConfigure)]
+   ("tracker", opTracker), ("roms_sample", opRomsSample), ("diffdisp", opDiffDisp), ("analytical", opAnalytical), ("release", opRelease), ("run", opRun), ("validate", opValidate), ("configure", opConfigure), ("params", opParams)]
 
 def handle (line : String) : String :=
   match Json.parse line with
